@@ -81,6 +81,8 @@ Definition check_sel (c : sel_case) : N :=
 (* ---------------------------------------------------------------- generator info *)
 Inductive gev :=
 | GForge (who : N) (lost : bool) (forged : bool) (hdr : bh) (at_handoff stored : option geninfo)
+| GForgeAbort (who : N) (forged : bool) (stored : option geninfo)   (* the tick dies before the persist *)
+| GPowerLoss (stored : list (N * option geninfo))   (* power loss + reopen: the records of the keys afterwards *)
 | GTip (t : tip) | GSync (b : bool) | GRestart.
 
 Definition bh_eqb (a b : bh) : bool :=
@@ -115,6 +117,13 @@ Fixpoint walk (m : mst) (pubs : list bh) (agree spec : bool) (evs : list gev) : 
                      (* the header contradicts none of the earlier ones (of any generator of the node) *)
                      (lost || forallb (fun p => negb (contradicting p hdr) && negb (contradicting hdr p)) pubs)) in
           walk m' (if forged && negb lost then hdr :: pubs else pubs) (agree && a) (spec && sp) r
+      | GForgeAbort who forged stored =>
+          walk (mstep init_header m (MForge who CrashBeforePersist)) pubs
+               (agree && negb forged && ogi_eqb stored (mdisk m who)) (spec && negb forged) r
+      | GPowerLoss stored =>
+          (* what was persisted before a hand-off (or before the crash) is durable: the records are those of the model *)
+          let ok := forallb (fun kv => ogi_eqb (snd kv) (mdisk m (fst kv))) stored in
+          walk (mstep init_header m MRestart) pubs (agree && ok) (spec && ok) r
       | GTip t => walk (mstep init_header m (MTip t)) pubs agree spec r
       | GSync b => walk (mstep init_header m (MSync b)) pubs agree spec r
       | GRestart => walk (mstep init_header m MRestart) pubs agree spec r
